@@ -357,10 +357,12 @@ def run(repo: Repo, chk: Check) -> None:
     for cname, want in table.items():
         fi = repo.func(f'{S}.{cname}.execute')
         called = set()
-        for c in [n for n in ast.walk(fi.node) if isinstance(n, ast.Call)]:
-            if isinstance(c.func, ast.Attribute) and isinstance(c.func.value, ast.Name) and c.func.value.id == 'src':
-                called.add(c.func.attr)
-        called -= {'assert_type_in', 'assert_type_equal'}
+        # the collection operations the instruction (or the helpers later extracted from it) invokes, on whatever the collection is called there
+        api = {'contains', 'get', 'add', 'remove', 'update'}
+        for f2 in repo.with_fresh_callees(fi):
+            for c in [n for n in ast.walk(f2.node) if isinstance(n, ast.Call)]:
+                if isinstance(c.func, ast.Attribute) and isinstance(c.func.value, ast.Name) and c.func.attr in api and c.func.value.id not in ('stack', 'stdout', 'context'):
+                    called.add(c.func.attr)
         chk.ob('R-TABLE', fi.qualname, called == want, f'calls {sorted(want)} on the collection', fi.loc, {'called': sorted(called)},
                what=f'{cname} uses {sorted(called)} instead of {sorted(want)}')
     sz = repo.func('pytezos.michelson.instructions.generic.SizeInstruction.execute')
